@@ -189,6 +189,40 @@ func (fr *Frame) execAppend(ins ssa.CallInstruction, cc *ssa.CallCommon) Term {
 			}
 			return fmt.Sprintf("(select %s %s)", h.S, lp.ptr(Term{fmt.Sprintf("(pelem (sbase %s) (+ (soff %s) %s))", t.S, t.S, j), SPtr}).S)
 		}
+		if srt == SPtr {
+			// pointer cells: the heap after the append is a new heap defined cell by cell (the
+			// well-formedness axiom of pointer heaps speaks about every cell, so the content of
+			// the new array must not be claimed to have been there before)
+			nh := c.fresh(heapName(srt), h.Sort)
+			condN, rootN := lp.match("p")
+			condN = append(condN, fmt.Sprintf("((_ is pelem) %s)", rootN), fmt.Sprintf("(= (ebase %s) %s)", rootN, nb.S),
+				fmt.Sprintf("(<= 0 (eidx %s))", rootN), fmt.Sprintf("(< (eidx %s) %s)", rootN, newLen.S))
+			oldAt := fmt.Sprintf("(select %s %s)", h.S, lp.ptr(Term{fmt.Sprintf("(pelem (sbase %s) (+ (soff %s) (eidx %s)))", s.S, s.S, rootN), SPtr}).S)
+			valN := fmt.Sprintf("(ite (< (eidx %s) %s) %s %s)", rootN, oldLen.S, oldAt, srcCell(fmt.Sprintf("(- (eidx %s) %s)", rootN, oldLen.S)))
+			condI, rootI := lp.match("p")
+			condI = append(condI, fmt.Sprintf("((_ is pelem) %s)", rootI), fmt.Sprintf("(= (ebase %s) (sbase %s))", rootI, s.S),
+				fmt.Sprintf("(<= (+ (soff %s) %s) (eidx %s))", s.S, oldLen.S, rootI), fmt.Sprintf("(< (eidx %s) (+ (soff %s) %s))", rootI, s.S, newLen.S))
+			valI := srcCell(fmt.Sprintf("(- (eidx %s) (soff %s) %s)", rootI, s.S, oldLen.S))
+			c.assume(Term{fmt.Sprintf("(forall ((p Ptr)) (! (= (select %s p) (ite (and (not %s) %s) %s (ite (and %s %s) %s (select %s p)))) :pattern ((select %s p))))",
+				nh.S, inplace.S, strings.Join(condN, " "), valN, inplace.S, strings.Join(condI, " "), valI, h.S, nh.S), SBool})
+			fr.st.heaps[heapName(srt)] = nh
+			// view-level consequences in the syntactic form contracts use
+			resCell := func(j string) string {
+				return lp.ptr(Term{fmt.Sprintf("(pelem (sbase %s) (+ (soff %s) %s))", res.S, res.S, j), SPtr}).S
+			}
+			oldCell := lp.ptr(Term{fmt.Sprintf("(pelem (sbase %s) (+ (soff %s) j))", s.S, s.S), SPtr}).S
+			fr.assumeHere(Term{fmt.Sprintf("(forall ((j Int)) (! (=> (and (<= 0 j) (< j %s)) (= (select %s %s) (select %s %s))) :pattern ((select %s %s))))",
+				oldLen.S, nh.S, resCell("j"), h.S, oldCell, nh.S, resCell("j")), SBool})
+			if static && k <= 8 {
+				for j := int64(0); j < k; j++ {
+					fr.assumeHere(Term{fmt.Sprintf("(= (select %s %s) %s)", nh.S, resCell(fmt.Sprintf("(+ %s %d)", oldLen.S, j)), srcCell(fmt.Sprint(j))), SBool})
+				}
+			} else {
+				fr.assumeHere(Term{fmt.Sprintf("(forall ((j Int)) (! (=> (and (<= %s j) (< j %s)) (= (select %s %s) %s)) :pattern ((select %s %s))))",
+					oldLen.S, newLen.S, nh.S, resCell("j"), srcCell(fmt.Sprintf("(- j %s)", oldLen.S)), nh.S, resCell("j")), SBool})
+			}
+			continue
+		}
 		// grow case: the fresh array's cells (never written before) hold prefix and new elements
 		newCell := lp.ptr(Term{"(pelem " + nb.S + " j)", SPtr})
 		fr.assumeHere(Term{fmt.Sprintf("(forall ((j Int)) (! (=> (and (<= 0 j) (< j %s)) (= (select %s %s) (select %s %s))) :pattern ((select %s %s))))",
